@@ -33,23 +33,7 @@ func (an *Analysis) Prune(fn *ssa.Function, assume Assume) *Pruned {
 			return b.Succs
 		}
 		if iff, ok := b.Instrs[len(b.Instrs)-1].(*ssa.If); ok && assume != nil {
-			if bv, ok := constBool(iff.Cond); ok {
-				if bv {
-					return b.Succs[:1]
-				}
-				return b.Succs[1:2]
-			}
-			if a, neg, ok := an.AtomOf(iff.Cond); ok {
-				if val, known := assume(a); known {
-					truth := val != neg
-					pr.Used[a.Key] = true
-					if truth {
-						return b.Succs[:1]
-					}
-					return b.Succs[1:2]
-				}
-			}
-			if truth, ok := pr.foldCond(iff.Cond, 0); ok {
+			if truth, ok := an.BoolUnder(pr, assume, iff.Cond, 0); ok {
 				if truth {
 					return b.Succs[:1]
 				}
@@ -453,8 +437,14 @@ func (an *Analysis) BoolUnder(pr *Pruned, assume Assume, v ssa.Value, depth int)
 	if assume != nil {
 		if a, neg, ok := an.AtomOf(v); ok {
 			if val, known := assume(a); known {
+				pr.Used[a.Key] = true
 				return val != neg, true
 			}
+		}
+	}
+	if u, ok := v.(*ssa.UnOp); ok && u.Op == token.NOT {
+		if b, k := an.BoolUnder(pr, assume, u.X, depth+1); k {
+			return !b, true
 		}
 	}
 	if t, ok := pr.foldCond(v, 0); ok {
